@@ -200,6 +200,35 @@ CHECKS["C19"] = dict(
     technique="Lean 4 round-trip / purity / topology proofs on tree-level models + execution of the real producers and readers with field-wise comparison",
     design="§7 C19")
 
+CHECKS["C02"] = dict(
+    text="Machine-checked (Lean 4, any ordered field) about the model of allocation.py (constructor checks, refine, "
+         "uniform_refinement_depth, griddify, area/center caches) with the three repairs: for every allocation the constructor accepts "
+         "and EVERY composition of the three refinement operations (induction over the operation list with a transitive Refines "
+         "relation) the operation succeeds, the result is a valid allocation, every new cell lies inside exactly one old cell whose "
+         "children are pairwise disjoint, cover it and sum to its area, per-module allocated area and first moment (hence centre of mass) "
+         "are conserved and the cached area(m)/center(m) are literally unchanged, children inherit the parent's ratios, and cells of "
+         "fixed modules are never cut. Tied to the code on every run by operation histories of 1-6 ops from Allocation(text): exact "
+         "dyadic stream, bit-identical float stream (CPython's Neumaier sum() modelled), and every clause re-evaluated in exact "
+         "arithmetic on what the implementation returned.",
+    note="Exact-arithmetic theorems; IEEE rounding executed, not proved; model fidelity sampled; YAML parsing outside the model; the "
+         "class-wide tolerance state is threaded explicitly; three repairs committed first (fixed cells, griddify y-loop, must_be_refined guard).",
+    technique="Lean 4 conservation proofs by induction over operation histories + Rat/Float model correspondence + exact clause re-evaluation",
+    design="§7 C02")
+CHECKS["C12"] = dict(
+    text="Machine-checked (Lean 4): must_be_refined(t) is true exactly when refine(t, 1) changes the allocation, and then the cell count "
+         "strictly grows (so a loop guarded by the predicate never spins on a fixpoint); refine splits precisely the non-fixed, non-empty "
+         "cells in which no module exceeds t, each into 2^levels congruent cells obtained by repeatedly halving the longer side, depth "
+         "raised by levels, all other cells untouched; uniform refinement ends with every non-fixed cell at the former maximum depth; "
+         "after griddify no refinable cell is y-cuttable at any side line of any result cell (full), and none is x-cuttable relative to "
+         "the height its parent had when the x cuts were decided. The full x statement is FALSE on the code (open finding "
+         "C12-griddify-x-before-y, reproduced by a witness): it is proved as griddify_aligned_x_partial under the hypothesis that the "
+         "cell was not shortened by y cuts, and the harness attributes a failing input to the finding only inside exactly that region.",
+    note="No-crossing theorems assume tolerance-separated side coordinates (gather_boundaries merges within the tolerance); termination "
+         "is formalised as iff + progress (children inherit ratios, so the loop terminates only because the optimiser rewrites ratios "
+         "between refinements); shares model and correspondence with C02.",
+    technique="Lean 4 exactness / iff proofs + _partial theorem delimiting an open finding + Rat/Float model correspondence",
+    design="§7 C12")
+
 NOT_APPLICABLE = {}
 
 def main():
